@@ -1,6 +1,7 @@
 import Refine.Model.Dist
 import Refine.Lemmas.Dist
 import Refine.Lemmas.DistSync
+import Refine.Lemmas.DistGhost
 
 /-!
   C06 — distributed-mesh invariants at sync points.
@@ -266,9 +267,32 @@ theorem cellOwner_agree (s t : RankState) (c : DCell) (h : ∀ g ∈ c.nodes, s.
 
 example : cellOwner [(7, 0), (3, 2), (9, 1), (5, 1)] = 2 ∧ cellPartNode [7, 3, 9, 5] = 1 := by decide
 
-/-! ## ghost refresh (no universal theorem: `ghostRefresh_spec` of DESIGN.md is tied by the streams only)
+/-! ## ghost refresh
 
-    the literal model of `ref_node_ghost_int` (alltoall of the bucket sizes, alltoallv of the requested globals,
+  FULL STATEMENT (`ghostRefresh_spec`, NOT proved): for every world `w` of at least two ranks in which every rank
+  lists each global once, every ghost entry's `part` is a rank that holds that global with `ldim` values, and the
+  bucket sizes fit an `int`: `ghost ty ldim w = some w'` with
+  `w'[r] = w[r].map fun nd => if nd.part = r then nd else { nd with vals := the vals of nd.glob on rank nd.part }`.
+  PROVED: the store loop at the end of `ref_node_ghost_*` (`ghostRefresh_spec_partial`): the literal
+  `foldl storeVals` over the received `(global, values)` pairs gives every named entry exactly the received values
+  and leaves every other entry — all owned ones — unchanged.
+  MISSING: that the `alltoall` of bucket sizes and the two `alltoallv` calls hand rank `r` exactly the pairs
+  `(g, values of g on its owner)` of its ghosts (to be derived from `C17.alltoallv_spec`); that part is tied by the
+  `dist_fn` ghost ops (diff + python oracle) and by clause (iv) of `distInv` on every dumped state after
+  `ref_node_ghost_real`. -/
+theorem ghostRefresh_spec_partial {β : Type} (ps : List (Int × List β)) (nodes : List (GNode β))
+    (hnd : (nodes.map (·.glob)).Nodup) (hps : (ps.map (·.1)).Nodup) :
+    ps.foldl (fun ns gi => storeVals ns gi.1 gi.2) nodes
+      = nodes.map fun nd => match ps.find? (fun gv => gv.1 == nd.glob) with
+          | some gv => { nd with vals := gv.2 }
+          | none => nd :=
+  Refine.Lemmas.DistGhost.foldl_storeVals ps nodes hnd hps
+
+example : [(4, [40, 41]), (7, [70, 71])].foldl (fun ns gi => storeVals ns gi.1 gi.2)
+      [(⟨1, 0, [10, 11]⟩ : GNode Int), ⟨4, 1, [0, 0]⟩, ⟨7, 2, [0, 0]⟩]
+    = [⟨1, 0, [10, 11]⟩, ⟨4, 1, [40, 41]⟩, ⟨7, 2, [70, 71]⟩] := by decide +kernel
+
+/-- the literal model of `ref_node_ghost_int` (alltoall of the bucket sizes, alltoallv of the requested globals,
     reply alltoallv, store) on a concrete 3-rank world: afterwards every ghost entry equals the owner's entry and the
     owned entries are unchanged -/
 example : ghost Refine.Model.Comm.RefType.int 2
